@@ -83,6 +83,9 @@ inductive Verdict where
   | modReq (l : ListId) (target : Host)
   /-- rewritten response: rcode and synthesised A/AAAA values -/
   | modResp (l : ListId) (rc : Nat) (vals : List String)
+  /-- a hash-prefix filter configured with a replacement *address* matched: the answer is built from
+  the requester's message constructor (`hashprefix.Filter.respForFamily`) -/
+  | hashResp (l : ListId) (v4 : Bool) (ip : String)
 deriving DecidableEq, Repr
 
 def Verdict.isNone : Verdict → Bool
@@ -92,6 +95,7 @@ def Verdict.isNone : Verdict → Bool
 def Verdict.isRewrite : Verdict → Bool
   | .modReq .. => true
   | .modResp .. => true
+  | .hashResp .. => true
   | _ => false
 
 /-! ## One list = one urlfilter engine (`rulelist.filter.DNSResult`) -/
@@ -174,6 +178,9 @@ def processRewrites (host : Host) (qt : QType) (rws : List Rewrite) (id : ListId
 structure HashFilter where
   hosts : List Host
   repl : Host
+  /-- `some (isIPv4, text)` when the replacement host is an IP address (`repIP`), in which case
+  `repl` is unused -/
+  replIP : Option (Bool × String) := Option.none
 deriving Repr
 
 /-- What `filterstorage.Default.ForConfig` assembled. -/
@@ -223,7 +230,11 @@ def ruleListVerdict (c : Cfg) (host : Host) (qt : QType) : Verdict :=
 def filterableQT (qt : QType) : Bool := qt == qtA || qt == qtAAAA || qt == qtHTTPS
 
 def hashVerdict (id : ListId) (f : HashFilter) (host : Host) (qt : QType) : Verdict :=
-  if filterableQT qt && f.hosts.any (fun h => domMatch h host) then .modReq id f.repl else .none
+  if filterableQT qt && f.hosts.any (fun h => domMatch h host) then
+    match f.replIP with
+    | some (v4, ip) => .hashResp id v4 ip
+    | Option.none => .modReq id f.repl
+  else .none
 
 def ssVerdict (id : ListId) (rs : List Rule) (host : Host) (qt : QType) : Verdict :=
   if filterableQT qt then processRewrites host qt (rewriteHits rs host) id else .none
@@ -244,7 +255,8 @@ def firstSome : List Verdict → Verdict
   | .none :: vs => firstSome vs
   | v :: _ => v
 
-/-- `composite.Filter.FilterRequest`. -/
+/-- `composite.Filter.FilterRequest`.  (The rule lists never yield `hashResp`; the case is listed
+only to keep the match total in the obvious way.) -/
 def filterRequest (c : Cfg) (host : Host) (qt : QType) : Verdict :=
   let rl := ruleListVerdict c host qt
   match rl with
@@ -252,6 +264,7 @@ def filterRequest (c : Cfg) (host : Host) (qt : QType) : Verdict :=
   | .blocked _ => rl
   | .modReq .. => rl
   | .modResp .. => rl
+  | .hashResp .. => rl
   | _ =>
     match firstSome (reqFilterVerdicts c host qt) with
     | .none => rl
@@ -370,6 +383,15 @@ structure Env where
 def rewriteMsg (host : Host) (qt : QType) (ttl : Nat) (rc : Nat) (vals : List String) : Msg :=
   { rcode := rc, ans := vals.map (synthRR host qt ttl), soa := Option.none }
 
+/-- `hashprefix.Filter.respForFamily` with a replacement address: an HTTPS query gets the blocked
+response of the requester's blocking mode, an A/AAAA query of the address's family gets the address,
+anything else NODATA with the synthesised SOA; all with the requester's TTL. -/
+def hashRespMsg (m : Mode) (ttl : Nat) (host : Host) (qt : QType) (v4 : Bool) (ip : String) : Msg :=
+  if qt == qtHTTPS then (blockedResp m ttl host qt).getD blockedFallback
+  else if qt == qtA && v4 then { rcode := 0, ans := [synthRR host qtA ttl ip], soa := Option.none }
+  else if qt == qtAAAA && !v4 then { rcode := 0, ans := [synthRR host qtAAAA ttl ip], soa := Option.none }
+  else nodata ttl
+
 /-- The main middleware for one query: request filter, upstream, response filter,
 `setFilteredResponse`.  `fb` is what is written when `NewBlockedResp` fails, as a function of the
 upstream reply. -/
@@ -383,6 +405,7 @@ def serveWith (fb : Msg → Msg) (e : Env) (host : Host) (qt : QType) : Msg :=
   | .blocked _ => (blockedResp e.mode e.ttl host qt).getD (fb (e.upstream host qt))
   | .allowed _ => e.upstream host qt
   | .modResp _ rc vals => rewriteMsg host qt e.ttl rc vals
+  | .hashResp _ v4 ip => hashRespMsg e.mode e.ttl host qt v4 ip
   | .none =>
     let orig := e.upstream host qt
     let pv := match flt with | some c => filterResponse c (orig.ans.map ansOf) | Option.none => Verdict.none
@@ -395,5 +418,97 @@ def serve (e : Env) (host : Host) (qt : QType) : Msg := serveWith (fun _ => bloc
 
 /-- The code before the fix: the upstream reply is written when `NewBlockedResp` fails. -/
 def serveUnfixed (e : Env) (host : Host) (qt : QType) : Msg := serveWith id e host qt
+
+/-! ## `filterstorage.Default.ForConfig`: from the configured switches to the composite filter -/
+
+/-- What the filter storage holds (after a refresh). -/
+structure Storage where
+  lists : List (Nat × List Rule) := []
+  svcs : List (Nat × List Rule) := []
+  sb : HashFilter := { hosts := [], repl := [] }
+  adult : HashFilter := { hosts := [], repl := [] }
+  newReg : HashFilter := { hosts := [], repl := [] }
+  genSS : List Rule := []
+  ytSS : List Rule := []
+deriving Repr
+
+/-- `filter.ConfigClient` / `filter.ConfigGroup` (a group has no custom part: `isClient = false`). -/
+structure PCfg where
+  isClient : Bool := true
+  customOn : Bool := false
+  customRules : List Rule := []
+  parentalOn : Bool := false
+  /-- the pause schedule contains the current time -/
+  paused : Bool := false
+  adultOn : Bool := false
+  gssOn : Bool := false
+  yssOn : Bool := false
+  svcIds : List Nat := []
+  ruleListOn : Bool := false
+  listIds : List Nat := []
+  sbOn : Bool := false
+  dangerousOn : Bool := false
+  nrdOn : Bool := false
+deriving Repr
+
+/-- Known IDs in configured order; unknown IDs are skipped (`setRuleLists`, `serviceblock.RuleLists`). -/
+def pickKnown (tbl : List (Nat × List Rule)) (ids : List Nat) : List (Nat × List Rule) :=
+  ids.filterMap fun i => (tbl.lookup i).map fun rs => (i, rs)
+
+def onlyIf {α : Type} (b : Bool) (a : α) : Option α := if b then some a else Option.none
+
+/-- `forClient` / `forGroup`: `setParental`, `setRuleLists`, `setSafeBrowsing`, `custom.Get`. -/
+def assemble (st : Storage) (p : PCfg) : Cfg :=
+  let par := p.parentalOn && !p.paused
+  { custom := if p.isClient && p.customOn && !p.customRules.isEmpty then some p.customRules else Option.none
+    lists := if p.ruleListOn then pickKnown st.lists p.listIds else []
+    svcs := if par then pickKnown st.svcs p.svcIds else []
+    sb := onlyIf (p.sbOn && p.dangerousOn) st.sb
+    adult := onlyIf (par && p.adultOn) st.adult
+    genSS := onlyIf (par && p.gssOn) st.genSS
+    ytSS := onlyIf (par && p.yssOn) st.ytSS
+    newReg := onlyIf (p.sbOn && p.nrdOn) st.newReg }
+
+/-! ## Whose message constructor: `ratelimitmw.newRequestInfo` -/
+
+/-- A profile as far as this property looks at it.  `ttl` is an integer because a negative
+`FilteredResponseTTL` makes `dnsmsg.NewConstructor` fail, in which case the server's constructor
+stays in place. -/
+structure Profile where
+  conf : PCfg
+  mode : Mode
+  ttl : Int
+  filteringOn : Bool
+  devFilteringOn : Bool
+deriving Repr
+
+/-- The server: its own constructor settings and the filtering group's configuration. -/
+structure Server where
+  st : Storage
+  mode : Mode
+  ttl : Nat
+  grp : PCfg
+deriving Repr
+
+/-- The message constructor of a request: the profile's own when there is a profile (and a
+constructor can be made from it), the server's otherwise. -/
+def ctorOf (srv : Server) : Option Profile → Mode × Nat
+  | some p => if p.ttl < 0 then (srv.mode, srv.ttl) else (p.mode, p.ttl.toNat)
+  | Option.none => (srv.mode, srv.ttl)
+
+def envOf (srv : Server) (who : Option Profile) (upstream : Host → QType → Msg) : Env :=
+  { sw := match who with
+      | some p => { hasProfile := true, profOn := p.filteringOn, devOn := p.devFilteringOn }
+      | Option.none => { hasProfile := false, profOn := false, devOn := false }
+    prof := match who with | some p => assemble srv.st p.conf | Option.none => {}
+    grp := assemble srv.st srv.grp
+    mode := (ctorOf srv who).1
+    ttl := (ctorOf srv who).2
+    upstream := upstream }
+
+/-- One query of one requester through the whole stack. -/
+def serveReq (srv : Server) (who : Option Profile) (upstream : Host → QType → Msg)
+    (host : Host) (qt : QType) : Msg :=
+  serve (envOf srv who upstream) host qt
 
 end Agd.Filter
